@@ -386,7 +386,7 @@ fn gen_pos_case(cur: &mut Cursor) -> Value {
             }
         }
     };
-    json!({"entry": entry, "text": text, "fen": pos.fen(), "src": src})
+    crate::common::with_twin(cur, json!({"entry": entry, "text": text, "fen": pos.fen(), "src": src}))
 }
 
 fn check_pos_case(case: &Value, stats: &mut Stats) -> CheckResult {
